@@ -1,7 +1,6 @@
 //! Matrix-level encodings shared by the matrix / homology properties (C07-C13).
 use crate::enc::*;
 use num_bigint::BigInt;
-use num_traits::Zero;
 use rand::rngs::StdRng;
 use rand::Rng;
 use serde_json::{json, Value};
